@@ -26,8 +26,8 @@ def one(name):
                 # the seed's own property gets the full quick tier; the neighbours are run without the typestate products
                 # (A3 / A5 cost 30-50 s each) unless --full: "also reported by" is then a lower bound
                 rep, mod = evaluate(pid, "quick", tree, skip_a3=(pid != name.split("-")[0] and "--full" not in sys.argv))
-                if rep.violations:
-                    caught[pid] = [v["key"][:160] for v in rep.violations]
+                if rep.unlisted():
+                    caught[pid] = [v["key"][:160] for v in rep.unlisted()]
             except AnalysisError as e:
                 caught[pid + "(analysis-error)"] = [str(e)[:160]]
         return name, caught
